@@ -727,3 +727,90 @@ def reposition(tree):
             c._src = s_
             todo.extend(x for x in ast.iter_child_nodes(c) if not isinstance(x, (ast.stmt, ast.ExceptHandler)))
     return src, new
+
+
+# ---- loops over a literal tuple of objects ------------------------------------------------------------------------------------------
+def _ref_chain(e):
+    """self.a.b / name -> the expression is a plain reference to an object (no call, no subscript)"""
+    while isinstance(e, ast.Attribute):
+        e = e.value
+    return isinstance(e, ast.Name)
+
+
+def _stores_to(stmts, exprs):
+    """does the block re-bind one of the references (x = .., self.a = .., del ..)"""
+    want = {ast.dump(_as_load(e)) for e in exprs}
+    for st in stmts:
+        for n in ast.walk(st):
+            if isinstance(n, (ast.Name, ast.Attribute)) and isinstance(n.ctx, (ast.Store, ast.Del)) and ast.dump(_as_load(n)) in want:
+                return True
+    return False
+
+
+def _as_load(e):
+    e = copy.deepcopy(e)
+    for n in ast.walk(e):
+        if hasattr(n, "ctx"):
+            n.ctx = ast.Load()
+        for a in ("lineno", "col_offset", "end_lineno", "end_col_offset"):
+            if hasattr(n, a):
+                delattr(n, a)
+    return e
+
+
+class _Alias(ast.NodeTransformer):
+    def __init__(self, name, expr):
+        self.name, self.expr = name, expr
+
+    def visit_Name(self, n):
+        if n.id == self.name and isinstance(n.ctx, ast.Load):
+            return ast.copy_location(copy.deepcopy(self.expr), n)
+        return n
+
+
+def unroll_object_loops(trees):
+    """`for u in (self.a, self.b): u[k] = u[r]` writes to self.a and to self.b through an alias; the def-use engine follows names, not
+    aliases. A loop over a literal tuple / list of plain object references is replaced by one copy of its body per object, with the
+    object's reference in place of the loop variable (no break / continue / else, the variable and the references not re-bound)."""
+    log = []
+
+    def block(stmts, fq):
+        i = 0
+        while i < len(stmts):
+            st = stmts[i]
+            for fld in ("body", "orelse", "finalbody"):
+                blk = getattr(st, fld, None)
+                if isinstance(blk, list) and blk and isinstance(blk[0], ast.stmt) and not isinstance(st, (ast.FunctionDef, ast.AsyncFunctionDef, ast.ClassDef)):
+                    block(blk, fq)
+            for hd in getattr(st, "handlers", []) or []:
+                block(hd.body, fq)
+            if (isinstance(st, ast.For) and isinstance(st.target, ast.Name) and isinstance(st.iter, (ast.Tuple, ast.List)) and not st.orelse
+                    and 1 <= len(st.iter.elts) <= 6 and all(_ref_chain(e) for e in st.iter.elts)):
+                v = st.target.id
+                inner = [n for b in st.body for n in ast.walk(b)]
+                bad = any(isinstance(n, (ast.Break, ast.Continue, ast.Return, ast.FunctionDef, ast.Lambda, ast.AsyncFunctionDef, ast.Global, ast.Nonlocal)) for n in inner) \
+                    or any(isinstance(n, ast.Name) and n.id == v and not isinstance(n.ctx, ast.Load) for n in inner) \
+                    or any(isinstance(n, ast.comprehension) and any(isinstance(m, ast.Name) and m.id == v for m in ast.walk(n.target)) for n in inner) \
+                    or _stores_to(st.body, st.iter.elts)
+                # the variable must not be read after the loop
+                later = [n for s_ in stmts[i + 1:] for n in ast.walk(s_) if isinstance(n, ast.Name) and n.id == v]
+                if not bad and not later:
+                    new = []
+                    for e in st.iter.elts:
+                        for b in st.body:
+                            nb = _Alias(v, _as_load(e)).visit(copy.deepcopy(b))
+                            ast.fix_missing_locations(ast.copy_location(nb, b))
+                            for y in ast.walk(nb):
+                                if not hasattr(y, "lineno") and isinstance(y, (ast.expr, ast.stmt)):
+                                    ast.copy_location(y, b)
+                            new.append(nb)
+                    stmts[i:i + 1] = new
+                    log.append((fq, getattr(st, "lineno", 0)))
+                    continue
+            i += 1
+
+    for m, t in trees.items():
+        for n in ast.walk(t):
+            if isinstance(n, (ast.FunctionDef, ast.AsyncFunctionDef)):
+                block(n.body, f"{m}:{n.name}")
+    return log
